@@ -216,6 +216,11 @@ class MapToMolecule(Processor):
         # in this case the node belongs to a fragment for which there is a
         # multiresidue block
         if "from_itp" in meta_molecule.nodes[start_node]:
+            # the residue ids of the block start at 1; shift them in case
+            # the residue graph doesn't start with 1
+            resid_offset = resid_dict[start_node] - 1
+            for mol_node in new_mol.nodes:
+                new_mol.nodes[mol_node]["resid"] += resid_offset
             # add all nodes of that fragment to added_fragment nodes
             fragment_nodes = list(self.fragments[self.node_to_fragment[start_node]])
             self.added_fragment_nodes += fragment_nodes
